@@ -90,10 +90,32 @@ def Buildable (req : Parser) (mth ver : Bytes) : Prop :=
 /-- a usable upstream: it names a host that can be decoded -/
 def HostOk (u : Url) (h : Bytes) : Prop := u.hostname = some h ∧ h ≠ [] ∧ utf8Valid h = true
 
+/-- **C12 connect host.**  The host handed to the socket layer is the URL's
+hostname, except that an IPv6 literal `[addr]` is connected as the bare `addr`
+(fix a37014e); any hostname not of the form `[…]` is used as is. -/
+theorem C12_connect_host :
+    (∀ a : Bytes, connectHost ([Px.Url.LBR] ++ a ++ [Px.Url.RBR]) = a) ∧
+    (∀ h : Bytes, h.head? ≠ some Px.Url.LBR → connectHost h = h) ∧
+    (∀ h : Bytes, h.getLast? ≠ some Px.Url.RBR → connectHost h = h) ∧
+    connectHost (b "[::1]") = b "::1" ∧ connectHost (b "up1.test") = b "up1.test" := by
+  refine ⟨?_, ?_, ?_, by decide +kernel, by decide +kernel⟩
+  · intro a
+    have h1 : ([Px.Url.LBR] ++ a ++ [Px.Url.RBR]).head? = some Px.Url.LBR := by simp
+    have h2 : ([Px.Url.LBR] ++ a ++ [Px.Url.RBR]).getLast? = some Px.Url.RBR := List.getLast?_concat
+    simp only [connectHost, h1, h2, beq_self_eq_true, Bool.and_self, if_true]
+    simp
+  · intro h hh
+    have : (h.head? == some Px.Url.LBR) = false := by simpa using hh
+    simp [connectHost, this]
+  · intro h hh
+    have : (h.getLast? == some Px.Url.RBR) = false := by simpa using hh
+    simp [connectHost, this]
+
 /-- **C12 target.**  For a web request, when no matching branch raises and the
 last URL-yielding hit yields `u` (naming host `h`): exactly one address is
-handed to the socket layer, `(h, port u or 80/443 by scheme)`; TLS is requested
-exactly for the `https` scheme; the upstream is queued exactly one packet,
+handed to the socket layer, `(connectHost h, port u or 80/443 by scheme)` —
+the hostname, without its brackets if it is an IPv6 literal (`C12_connect_host`);
+TLS is requested (for the hostname as written) exactly for the `https` scheme; the upstream is queued exactly one packet,
 `build_http_request(method, path(u) or "/", version, headers, body)` with the
 client's method and version, the header dict of `C12_host_rewrite` /
 `C12_headers_preserved` and the client's (re-chunked if chunked) body; the
@@ -113,7 +135,7 @@ theorem C12_target (cfg : Cfg) (m : Nat → Bool) (pick : Nat → Nat) (t : Tabl
             client := { s.client with buffer := s.client.buffer ++ (hits m 0 t).filterMap (litOf cfg pick) },
             upstream := some ⟨[buildRequest [] mth (fwdPath u) ver none (fwdHeaders cfg req (hostArg cfg u h))
                                  body false true], false⟩,
-            connects := s.connects ++ [(h, portOf cfg u)],
+            connects := s.connects ++ [(connectHost h, portOf cfg u)],
             wraps := if u.scheme == some cfg.httpsProto then s.wraps ++ [h] else s.wraps },
          false, none⟩ := by
   obtain ⟨body, hbody, hb1, _⟩ := bodyOrChunks_ok cfg.bufSize hn req
@@ -352,7 +374,7 @@ theorem C12_dynamic_url (cfg : Cfg) (k pat pat' : Nat) (raw : Bytes) (u : Url)
 theorem C12_refused (cfg : Cfg) (req : Parser) (s : St) (u : Url) (h : Bytes)
     (hc : s.choice = some u) (hh : HostOk u h) :
     (forward cfg false req s).exc = some .httpProtocol ∧ (forward cfg false req s).teardown = true ∧
-    (forward cfg false req s).st.connects = s.connects ++ [(h, portOf cfg u)] ∧
+    (forward cfg false req s).st.connects = s.connects ++ [(connectHost h, portOf cfg u)] ∧
     (forward cfg false req s).st.upstream = some ⟨[], true⟩ := by
   rw [forward_refused cfg req s u h hc hh.1 hh.2.1 hh.2.2]; simp
 
